@@ -2,10 +2,13 @@
 TRS_PROBES = ('154n97w14', '154N97W14', 'XXXz97w14', '___z___z__', '1154n97w14', '154n97w', '', '7s2e03')
 TRACT_PROBES = (('Lots 1 - 3, N/2NE/4, NE', '154n97w14', 'clean_qq'), ('Lot 2(38.1), S/2 of Lot 1', '7s2e03', ''))
 DESC_PROBES = (('T154N-R97W Sec 14: NE/4, Sec 15 - 16: W/2', ''), ('T154-R97 Sec 14: Lots 1 - 2', 'parse_qq'),
+               ('T1S4N-R97W Sec 14: NE N2 of L1', ''), ('TIS4N-R9lW Sec 1: NE', 'ocr_scrub,clean_qq'),
                ('NE/4 of Section 14, Township 154, Range 97 West', 's'), ('nothing to see here', ''))
 N_PROBES = len(TRS_PROBES) + len(TRACT_PROBES) + len(DESC_PROBES)
 OPS = ('parse_other', 'other_defaults_then_restore', 'clear_cache', 'cache_off', 'cache_on', 'prewarm', 'mutate_trs_dict',
-       'mutate_exports', 'parse_same_under_other_defaults')
+       'mutate_exports', 'parse_same_under_other_defaults', 'parse_other_every_setting')
+SETTINGS_TOUR = ('ocr_scrub', 'clean_qq,parse_qq', 'segment,sec_within', 'copy_all', 'sec_colon_required', 'sec_colon_cautious',
+                 's,e,qq_depth.1,break_halves,parse_qq', 'suppress_lot_divs,parse_qq,qq_depth_min.1,qq_depth_max.3', 'desc_STR')
 
 
 def observe(pi):
@@ -53,6 +56,14 @@ def apply_op(op, pi):
                 observe(pi)
         finally:
             MC.default_ns, MC.default_ew = save
+        return None
+    if name == 'parse_other_every_setting':
+        for cfg in SETTINGS_TOUR:
+            pytrs.PLSSDesc('TIS4N-R97W Sec l4: NE, N2 of Lot 1; T2S-R3E Sec 5 NW/4', config=cfg)
+            pytrs.Tract('NE, N2 of Lot 1', trs='1n1w01', config=cfg.replace('copy_all', '').replace('desc_STR', '').replace('segment,sec_within', '')
+                        .replace('sec_colon_required', '').replace('sec_colon_cautious', ''), parse_qq=True)
+        pytrs.find_twprge('TIS4N-R97W', ocr_scrub=True)
+        pytrs.PLSSDesc('T154N-R97W Sec 14: NE/4').parse(ocr_scrub=True, clean_qq=True, parse_qq=True, segment=True, commit=False)
         return None
     if name == 'clear_cache':
         pytrs.TRS._clear_cache()
